@@ -1596,12 +1596,20 @@ done:
 static const dc std_gamma[NSTD] = { -1.0, 1.0, 0.0, 0.5 * I, -0.3 + 0.4 * I };
 static const char *std_name[NSTD] = { "short", "open", "match", "0.5j",
     "-0.3+0.4j" };
-#define NETERM 4
+#define NETERM 5
 static const dc eterm[NETERM][3] = {	/* directivity, tracking, match */
     { 0.0, 1.0, 0.0 },
     { 0.1 + 0.05 * I, 0.9 - 0.1 * I, 0.2 * I },
     { -0.05, 0.01, 0.1 },
     { 0.3 - 0.2 * I, 2.0 + 1.0 * I, -0.4 },
+    { 0.2 + 0.1 * I, 6.0 - 3.0 * I, 0.3 * I },	/* receiver gain */
+};
+/* inconsistency added to the measurement of each standard in the "noisy"
+   pass: the equations then have no exact solution and the documented
+   least-squares solution is the only right answer */
+static const dc std_delta[NSTD] = {
+    0.03 + 0.015 * I, -0.021 + 0.006 * I, 0.012 - 0.027 * I,
+    -0.006 - 0.018 * I, 0.024 + 0.009 * I
 };
 #define NDUT 2
 static const dc dut_gamma[NDUT] = { 0.25 - 0.6 * I, -0.7 + 0.1 * I };
@@ -1646,7 +1654,33 @@ static void run_solve(ctx_t *c, int type_i, int et, int sub)
     }
     pr = pivot_ratio_coleq(k, 3, W);
 
-    for (long ord = 0; ord < norders && r->status != VF_VIOL; ++ord) {
+    /* documented equations with the inconsistent measurements:
+         T8: ts G + ti - m tx G = m;  U8 (um = 1): ui - G m ux - G us = -m */
+    lc_t lsx[3];
+    int ls_ok = 0;
+    if (k > 3) {
+	lc_t LA[NSTD * 3], LB[NSTD];
+	long double lpr = 0;
+	for (int i = 0; i < k; ++i) {
+	    lc_t g = (lc_t)std_gamma[members[i]];
+	    lc_t m = (lc_t)oneport_m(eterm[et], std_gamma[members[i]]) +
+		(lc_t)std_delta[members[i]];
+	    if (!type_i) {
+		LA[i * 3 + 0] = g; LA[i * 3 + 1] = 1.0L;
+		LA[i * 3 + 2] = -m * g; LB[i] = m;
+	    } else {
+		LA[i * 3 + 0] = 1.0L; LA[i * 3 + 1] = -g * m;
+		LA[i * 3 + 2] = -g; LB[i] = -m;
+	    }
+	}
+	ls_ok = lin_lstsq(k, 3, 1, LA, LB, lsx, 1e-12L, &lpr) == 3 &&
+	    lpr >= PR_DET;
+    }
+
+    for (long ord2 = 0; ord2 < norders * (k > 3 ? 2 : 1) &&
+	    r->status != VF_VIOL; ++ord2) {
+	const long ord = ord2 % norders;
+	const int noisy = ord2 >= norders;
 	int perm[NSTD];
 	vnacal_t *vcp;
 	vnacal_new_t *vnp = NULL;
@@ -1664,7 +1698,10 @@ static void run_solve(ctx_t *c, int type_i, int et, int sub)
 	memset(&dummy, 0, sizeof(dummy));
 	dummy.n = 0;
 	snprintf(dummy.desc, sizeof(dummy.desc), "%s 1x1, error terms #%d, "
-		"standards in order %s", type_i ? "U8" : "T8", et, what);
+		"%sstandards in order %s", type_i ? "U8" : "T8", et,
+		noisy ? "inconsistent measurements, " : "", what);
+	if (noisy && !ls_ok)
+	    break;
 
 	vf_errlog_reset(&apply_log);
 	vcp = vnacal_create((vnaerr_error_fn_t *)vf_errfn, &apply_log);
@@ -1692,6 +1729,8 @@ static void run_solve(ctx_t *c, int type_i, int et, int sub)
 		params[np++] = p;
 	    }
 	    mv[0] = oneport_m(eterm[et], std_gamma[sidx]);
+	    if (noisy)
+		mv[0] += std_delta[sidx];
 	    if (vnacal_new_add_single_reflect_m(vnp, mp, 1, 1, p, 1) == -1) {
 		np = -1;
 		break;
@@ -1735,6 +1774,30 @@ static void run_solve(ctx_t *c, int type_i, int et, int sub)
 	    }
 	    ++r->transitions;
 	    got = vnadata_get_cell(vdp, 0, 0, 0);
+	    if (noisy) {
+		/* what the minimiser of the documented equations gives */
+		lc_t m = (lc_t)mv[0], num, den, want;
+		if (!type_i) {
+		    num = m - lsx[1]; den = lsx[0] - m * lsx[2];
+		} else {
+		    num = m + lsx[0]; den = lsx[1] * m + lsx[2];
+		}
+		if (!(cabsl(den) > 1e-3L * (cabsl(num) + 1e-300L)))
+		    continue;
+		want = num / den;
+		long double e = cabsl((lc_t)got - want) / (1.0L + cabsl(want));
+		if (!(e <= c->worst))
+		    c->worst = e;
+		if (!(e <= 1e-9L))
+		    fail_sys(c, &dummy, "solve-not-minimiser", "%d "
+			    "inconsistent equations, 3 unknowns: the calibration "
+			    "applied to a measurement gives %.12g%+.12gj, the "
+			    "least-squares minimiser of the documented "
+			    "equations gives %.12Lg%+.12Lgj (difference %.3Le)",
+			    k, creal(got), cimag(got), creall(want),
+			    cimagl(want), e);
+		continue;
+	    }
 	    long double e = cabsl((lc_t)got - (lc_t)dut_gamma[d]);
 	    if (!(e <= c->worst))
 		c->worst = e;
